@@ -23,8 +23,15 @@ FUNS = {
     8: ("guard", "def guard(a: bool, b: bool, c: bool) -> bool:\n    return (not a) and (b or c)"),
     9: ("gt", "def gt(a: Qint[2], b: Qint[2]) -> bool:\n    return a > b"),
     10: ("sh", "def sh(a: bool, b: bool, c: bool) -> Tuple[bool, bool]:\n    return ((a and b) or c, (a and b) ^ c)"),
+    # expression lists with intermediates defined through other intermediates (nested common sub-expressions under the
+    # default optimizer; chained locals kept as they are by fastOptimizer)
+    11: ("lt3", "def lt3(a: Qint[2], b: Qint[2], c: Qint[2]) -> bool:\n    return a + b < c"),
+    12: ("chain", "def chain(a: bool, b: bool, c: bool) -> bool:\n    d = a and b\n    e = d or c\n    f = e ^ a\n    return f and not d"),
+    13: ("sum3", "def sum3(a: Qint[2], b: Qint[2], c: Qint[2]) -> Qint[2]:\n    return a + b + c"),
+    14: ("chain2", "def chain2(a: Qint[2], b: Qint[2]) -> bool:\n    d = a + b\n    e = d + a\n    return e > d"),
 }
-HEADER = "from qlasskit import qlassf, Qint\nfrom typing import Tuple\n\n"
+DECOR = {12: "@qlassfa(bool_optimizer=fastOptimizer)", 14: "@qlassfa(bool_optimizer=fastOptimizer)"}
+HEADER = "from qlasskit import qlassf, qlassfa, Qint\nfrom qlasskit.boolopt import fastOptimizer\nfrom typing import Tuple\n\n"
 
 
 def run_tool(mod, argv, stdin_text):
@@ -53,13 +60,17 @@ def job(j):
 
     out = []
     for inv in j["invs"]:
-        script = HEADER + "\n\n".join("@qlassf\n" + FUNS[k][1] for k in inv["script"]) + "\n"
+        script = HEADER + "\n\n".join(DECOR.get(k, "@qlassf") + "\n" + FUNS[k][1] for k in inv["script"]) + "\n"
         sel = inv["entry"] if inv["entry"] else inv["script"][0]
         name, fsrc = FUNS[sel]
         key = json.dumps(inv, sort_keys=True)
         c = {"key": key, "tool_exc": "", "parse_exc": ""}
         argv = [inv["tool"], "-i", "-"] + (["-e", name] if inv["entry"] else [])
-        ref = qlassf(fsrc)
+        if sel in DECOR:  # the selected function as the script defines it (its circuit depends on the optimizer profile)
+            from qlasskit.boolopt import fastOptimizer
+            ref = qlassf(fsrc, bool_optimizer=fastOptimizer)
+        else:
+            ref = qlassf(fsrc)
         c["inputs"] = [b for a in ref.args for b in a.bitvec]
         c["rets"] = list(ref.returns.bitvec)
         c["exprs"] = ser.ser_exprs(ref.expressions)
